@@ -304,7 +304,13 @@ impl<'a> AasmParser<'a> {
                     continue;
                 }
                 Token::Int(idx) => {
-                    // Parse global: INDEX: "name"
+                    // Parse global: INDEX: "name" (the binary format counts globals in a u16)
+                    if !(0..u16::MAX as i64).contains(idx) {
+                        return Err(AssemblerError::InvalidNumber(format!(
+                            "{} (global index must be 0-65534)",
+                            idx
+                        )));
+                    }
                     let idx = *idx as usize;
                     self.advance()?;
                     self.expect(Token::Colon)?;
@@ -338,7 +344,13 @@ impl<'a> AasmParser<'a> {
                     continue;
                 }
                 Token::Int(idx) => {
-                    // Parse upvalue: INDEX: (local|upvalue) INDEX
+                    // Parse upvalue: INDEX: (local|upvalue) INDEX (upvalues are addressed by a u8)
+                    if !(0..=u8::MAX as i64).contains(idx) {
+                        return Err(AssemblerError::InvalidNumber(format!(
+                            "{} (upvalue index must be 0-255)",
+                            idx
+                        )));
+                    }
                     let idx = *idx as usize;
                     self.advance()?;
                     self.expect(Token::Colon)?;
